@@ -9,7 +9,7 @@
 import { A, Atom, head, isAtom } from "./sx.mjs";
 import { tsOf, tsOfDecl } from "./mode_prog.mjs";
 
-const LIBS = ["lib.ts", "types/a.ts", "b.d.ts", "c.tsx", "dir/index.ts", "types/deep/d.ts"];
+const LIBS = ["lib.ts", "types/a.ts", "types_a.ts", "b.d.ts", "c.tsx", "dir/index.ts", "types/deep/d.ts"];   // types/a.ts and types_a.ts: file names that only differ in the separator
 
 export function specOf(from, to, rng) {
   if (to === null) return "./missing/nowhere";
